@@ -26,7 +26,7 @@ func c22(c *rig.Ctx) {
 	defer stop()
 	pc := installTxHooks(c.Seed, 300)
 	defer clearTxHooks()
-	nruns := c.Pick(36, 900)
+	nruns := c.Pick(24, 300)
 	tot := map[string]int{}
 	for i := 0; i < nruns; i++ {
 		r := c.SubRand("c22cfg", i)
@@ -49,7 +49,7 @@ func c22(c *rig.Ctx) {
 		if i < 3 {
 			c.Sample(map[string]any{"run": run.payload(), "stats": st, "one_tx": sampleTx(run)})
 		}
-		if c.Violations() > 20 {
+		if distinctViolationKeys() > 8 {
 			break
 		}
 	}
@@ -61,6 +61,7 @@ func c22(c *rig.Ctx) {
 	c.Require(tot["reads_after_foreign_commit"] > 0, "no re-read happened after a concurrent commit to the branch read (snapshots never mattered)")
 	c.Require(tot["lazy_branch_reads_after_commit"] > 0, "no first read of another branch happened after a concurrent commit to it")
 	c.Require(tot["values_attributed_to_other_tx"] > 0, "no read ever returned a value written by another transaction")
+	countReported(c, "c22")
 	scanOwnRaceReports(c, "C22", c22RaceFuncs)
 }
 
@@ -112,7 +113,7 @@ func analyse22(r *txRun) map[string]int {
 		for k, v := range extra {
 			wit[k] = v
 		}
-		c.Violation(key, what, wit)
+		report(c, key, what, wit)
 	}
 	for _, tx := range r.txs {
 		for ri, rd := range tx.Reads {
